@@ -86,6 +86,7 @@ class ModuleProxy(object):
 # array-building calls made from eqsig/single.py: the sites where an allocation can fail
 NP_SITES = ("array", "zeros", "zeros_like", "ones", "polyfit", "linspace", "logspace", "insert", "diff", "arange")
 NP_FFT_SITES = ("fft",)
+NP_EXTRA_SITES = ("cumsum", "concatenate", "pad", "interp", "where", "take", "ediff1d", "tril", "triu", "outer", "ones_like")
 DH_SITES = ("pseudo_response_spectra", "response_series")
 SD_SITES = ("calc_velo_and_disp_from_accel_arr",)
 IM_SITES = ("calc_peak",)
@@ -94,26 +95,48 @@ SCIPY_SIGNAL_SITES = ("butter", "filtfilt", "detrend")
 _installed = []
 
 
-def install_backend_seams():
-    """Bind the K2 proxies.  Idempotent."""
+def install_backend_seams(all_modules=False):
+    """Bind the K2 proxies.  Idempotent.  A name that a refactor has removed or renamed is skipped: the
+    seam then simply never fires (its counter stays at zero and the evidence shows it); it is never an error.
+
+    all_modules=True additionally puts the NumPy proxy over the module-global `np` of every other eqsig
+    module, so that an allocation can fail inside any array-level analysis function (used by C05)."""
     if _installed:
         return
     import eqsig.single as single
     import scipy.signal
 
-    def bind(mod, name, new):
-        _installed.append((mod, name, getattr(mod, name)))
-        setattr(mod, name, new)
+    def bind(mod, name, make):
+        if not hasattr(mod, name):
+            ST.calls_total["missing:%s.%s" % (getattr(mod, "__name__", "?"), name)] = 0
+            return
+        old = getattr(mod, name)
+        _installed.append((mod, name, old))
+        setattr(mod, name, make(old))
 
-    np_proxy = ModuleProxy(np, "np", NP_SITES, subs={"fft": ModuleProxy(np.fft, "np.fft", NP_FFT_SITES)})
+    def np_proxy(_old):
+        return ModuleProxy(np, "np", NP_SITES, subs={"fft": ModuleProxy(np.fft, "np.fft", NP_FFT_SITES)})
+
     bind(single, "np", np_proxy)
-    bind(single, "dh", ModuleProxy(single.dh, "sdof", DH_SITES))
-    bind(single, "sd", ModuleProxy(single.sd, "displacements", SD_SITES))
-    bind(single, "im", ModuleProxy(single.im, "im", IM_SITES))
-    bind(single, "calc_smooth_fa_spectrum", _site("calc_smooth_fa_spectrum", single.calc_smooth_fa_spectrum))
-    bind(single, "interp_array_to_approx_dt", _site("interp_array_to_approx_dt", single.interp_array_to_approx_dt))
+    bind(single, "dh", lambda old: ModuleProxy(old, "sdof", [x for x in DH_SITES if hasattr(old, x)]))
+    bind(single, "sd", lambda old: ModuleProxy(old, "displacements", [x for x in SD_SITES if hasattr(old, x)]))
+    bind(single, "im", lambda old: ModuleProxy(old, "im", [x for x in IM_SITES if hasattr(old, x)]))
+    bind(single, "calc_smooth_fa_spectrum", lambda old: _site("calc_smooth_fa_spectrum", old))
+    bind(single, "interp_array_to_approx_dt", lambda old: _site("interp_array_to_approx_dt", old))
     for s in SCIPY_SIGNAL_SITES:
-        bind(scipy.signal, s, _site("scipy.signal.%s" % s, getattr(scipy.signal, s)))
+        bind(scipy.signal, s, lambda old, s=s: _site("scipy.signal.%s" % s, old))
+    if all_modules:
+        import importlib
+        for name in ("eqsig.sdof", "eqsig.im", "eqsig.displacements", "eqsig.surface", "eqsig.stockwell", "eqsig.multiple",
+                     "eqsig.fns.average", "eqsig.fns.frequency", "eqsig.fns.generic", "eqsig.fns.peaks_and_crossings",
+                     "eqsig.fns.time_shift", "eqsig.fns.time_step"):
+            try:
+                mod = importlib.import_module(name)
+            except Exception:  # noqa
+                continue
+            if getattr(mod, "np", None) is np:
+                bind(mod, "np", lambda old: ModuleProxy(np, "np", NP_SITES + NP_EXTRA_SITES,
+                                                        subs={"fft": ModuleProxy(np.fft, "np.fft", NP_FFT_SITES + ("ifft",))}))
 
 
 def uninstall_backend_seams():
